@@ -65,6 +65,9 @@ SPECIALS = [
     -0.0, 0.0, 5e-324, -5e-324, 1e-310, -1e-310, 2.2250738585072014e-308, -2.2250738585072014e-308,
     1e300, -1e300, 1.7976931348623157e308, -1.7976931348623157e308, 1.0, -1.0, 0.1, -0.1,
     3.141592653589793, -2.5e-17, 1e-300, -1e-300, 123456789.123456789, -4.9406564584124654e-322,
+    # values that file formats like to reserve: the netCDF library's default fill values for double and float (as doubles),
+    # classic missing-value markers - in a footprint or concentration field they are data like any other number
+    9.969209968386869e36, float(np.float32(9.969209968386869e36)), -9.969209968386869e36, -9999.0, -999.0, 1e20, 9.96921e36,
 ]
 
 
@@ -200,7 +203,10 @@ def build(cp, case):
             X, Y = np.meshgrid(xs, ys)
             Z = np.full((ny, nx), 2.0)
         shape = (ny, nx)
-    if case["ts"] == "str":
+    if case["ts"] == "str" and case["seed"] % 3 == 1:
+        # clock-time / day-of-year labels: strings that LOOK like integers but are not in canonical integer form
+        stamps = ["%04d" % (30 * t) if case["seed"] % 2 else "%03d" % (t + 1) for t in range(ns)]
+    elif case["ts"] == "str":
         stamps = ["2024-06-%02dT%02d:30" % (1 + t, (7 * t) % 24) for t in range(ns)]
     else:
         base = int(rng.integers(0, 3)) * 1717200000
